@@ -716,6 +716,12 @@ func runVos(c vosCase) *halfOut {
 			var raws []vraw
 			for _, tmp := range l.Tmps {
 				mkdirTemp(l, tmp, p, &raws, out.Events)
+				if p != "" {
+					// the same with a "*" (os.MkdirTemp's placeholder) before or inside the pattern: what
+					// follows the star must be validated like the rest
+					mkdirTemp(l, tmp, "j*"+p, &raws, out.Events)
+					mkdirTemp(l, tmp, "*/"+strings.TrimPrefix(p, "/"), &raws, out.Events)
+				}
 			}
 			out.Viols = append(out.Viols, foldVos(config{L: l, Cwd: "/"}, p, raws)...)
 		}
